@@ -5,7 +5,7 @@
    The axis lemma is about the code AS IT IS (the Pinned variant: the axis cut from bootstrap's grid of 2 Nt points, a
    known finding), not about a corrected one.  harness/translate_c11.py instantiates the skeletons on every run. *)
 From Coq Require Import ZArith List Bool Arith Lia ZifyNat Field Permutation.
-From QV Require Import Base.Alg Base.Sums Base.Util Base.Dft Model.C13 Proofs.C13 Model.C11 Proofs.C11 Proofs.C13gen.
+From QV Require Import Base.Alg Base.Sums Base.Mat Base.Util Base.Dft Model.C13 Proofs.C13 Model.C11 Proofs.C11 Proofs.C13gen.
 Import ListNotations.
 
 Section LineSkel.
@@ -170,3 +170,34 @@ Ltac axis11_tie K tp s nt dt rwa w Hn Hw :=
     [ autorewrite with arrdb; rewrite Hl; lia
     | autorewrite with arrdb; rewrite ?Hl; first [reflexivity | (f_equal; f_equal; lia) | (unfold point; cbn [ofnat]; ring)]
     | autorewrite with arrdb; unfold point; cbn [ofnat]; ring ] ].
+
+(* ---- the basis discipline of _calculate_aggregate: which of the shared operators (Hamiltonian, dipole operator, supplied
+   tensor) is transformed with which matrix, in source order; the third component says whether the call is guarded by
+   `relaxation_tensor is not None`.  X.transform(M) presents X in the basis given by the columns of M: inv(M) X M (for the
+   three components of the dipole operator alike; the tensor's transformation is the same conjugation with the
+   super-operator M (x) M acting on Liouville space, for which the same algebra holds); SS = HH.diagonalize() is this map
+   with M = SS, the eigenvector matrix it returns. *)
+Inductive tobj := OH | OD | OR.
+Inductive tmat := MS | MS1.
+Definition tobj_eqb (a b : tobj) : bool := match a, b with OH, OH | OD, OD | OR, OR => true | _, _ => false end.
+
+Section BasisSkel.
+  Context {R : StarRing}.
+  Variable n : nat.
+  Variables S S1 : @mat R.
+
+  Definition tapply (m : tmat) (A : @mat R) : @mat R :=
+    match m with MS => mmul n S1 (mmul n A S) | MS1 => mmul n S (mmul n A S1) end.
+  (* the object o after the calls of the program (with / without a supplied tensor) *)
+  Definition trun (with_tensor : bool) (prog : list (tobj * tmat * bool)) (o : tobj) (A : @mat R) : @mat R :=
+    fold_left (fun X c => let '(o', m, g) := c in
+                          if tobj_eqb o o' && (negb g || with_tensor) then tapply m X else X) prog A.
+  Definition purity_prog : list (tobj * tmat * bool) :=
+    [(OH, MS, false); (OD, MS, false); (OR, MS, true); (OH, MS1, false); (OD, MS1, false); (OR, MS1, true)].
+
+  Lemma purity_prog_restores wt o A : meq n (mmul n S S1) mid -> meq n (trun wt purity_prog o A) A.
+  Proof.
+    intros HS. destruct wt, o; cbv [trun purity_prog fold_left tobj_eqb andb negb orb tapply];
+      first [now apply transform_back | intros i j _ _; reflexivity].
+  Qed.
+End BasisSkel.
